@@ -6,7 +6,7 @@
 import RdfModel.Proofs.C20Int
 namespace RdfModel.Proofs.C20
 open RdfModel RdfModel.Xsd RdfModel.C20
-open RdfModel.Spec.Xsd (Dt collapse boolLex canonBool bTrue bFalse)
+open RdfModel.Spec.Xsd (Dt collapse collapseGo isWs boolLex canonBool bTrue bFalse)
 
 /-! ### boolean -/
 
@@ -233,5 +233,138 @@ theorem reBase64_eq (fuel : Nat) : ∀ s, reBase64 fuel s = Spec.Xsd.b64Go fuel 
 
 theorem reBase64_spec (s : Bytes) : reBase64 s.length s = Spec.Xsd.base64LexOK s :=
   reBase64_eq _ s
+
+/-! ### whiteSpace collapse is idempotent -/
+
+theorem collapseGo_idem (s : Bytes) :
+    collapseGo .inWord (collapseGo .inWord s) = collapseGo .inWord s ∧
+    collapseGo .inWord (collapseGo .pending s) = collapseGo .pending s := by
+  induction s with
+  | nil => simp [collapseGo]
+  | cons b r ih =>
+    obtain ⟨ih1, ih2⟩ := ih
+    cases hb : isWs b with
+    | true => simp only [collapseGo, hb, if_true]; exact ⟨ih2, ih2⟩
+    | false =>
+      have h20 : isWs 0x20 = true := by decide
+      constructor
+      · simp only [collapseGo, hb, Bool.false_eq_true, if_false, ih1]
+      · simp only [collapseGo, hb, h20, Bool.false_eq_true, if_false, if_true, ih1]
+
+theorem collapse_idem (s : Bytes) : collapse (collapse s) = collapse s := by
+  unfold collapse
+  induction s with
+  | nil => rfl
+  | cons b r ih =>
+    cases hb : isWs b with
+    | true => simp only [collapseGo, hb, if_true]; exact ih
+    | false => simp only [collapseGo, hb, Bool.false_eq_true, if_false, (collapseGo_idem r).1]
+
+/-! ### string-like types -/
+
+structure StrFactP (T : StrTy) (f : StrFact) : Prop where
+  collapse : f.collapse = (T != .string)
+  re : f.lexRE = expStrRE T
+  dt : f.datatype = dtIRI T.dt
+  same : f.eqDatatypeSame = true
+
+theorem strFactOK_elim {T : StrTy} {f : StrFact} (h : strFactOK T f = true) : StrFactP T f := by
+  simp only [strFactOK, Bool.and_eq_true, beq_iff_eq] at h
+  obtain ⟨⟨⟨h1, h2⟩, h3⟩, h4⟩ := h
+  exact ⟨h1, h2, h3, h4⟩
+
+/-- the lexical check each string-like Map function is expected to make, by the spec's recogniser -/
+def strCheck (T : StrTy) (a : Bytes) : Bool :=
+  match T with
+  | .anyURI | .string => true
+  | .hexBinary => Spec.Xsd.hexBinaryLexOK a
+  | .base64Binary => Spec.Xsd.base64LexOK a
+
+theorem argOf_str {T : StrTy} {f : StrFact} (hf : StrFactP T f) (s : Bytes) :
+    argOf f.collapse s = Spec.Xsd.normalize T.dt s := by
+  rw [hf.collapse]
+  cases T <;> simp [argOf, Spec.Xsd.normalize, StrTy.dt, collapse_spec]
+
+set_option maxRecDepth 8192 in
+theorem reSrc_distinct :
+    reHexBinarySrc ≠ reDecimalSrc ∧ reHexBinarySrc ≠ reDoubleSrc ∧ reBase64Src ≠ reDecimalSrc ∧
+    reBase64Src ≠ reDoubleSrc ∧ reBase64Src ≠ reHexBinarySrc ∧ reDoubleSrc ≠ reDecimalSrc := by decide
+
+theorem mapStr_spec {T : StrTy} {f : StrFact} (hf : StrFactP T f) (s : Bytes) :
+    mapStr f s =
+      if strCheck T (Spec.Xsd.normalize T.dt s) then .ok (Spec.Xsd.normalize T.dt s) else .error .syntax := by
+  obtain ⟨d1, d2, d3, d4, d5, d6⟩ := reSrc_distinct
+  unfold mapStr
+  rw [argOf_str hf, hf.re]
+  cases T with
+  | anyURI => simp [expStrRE, reCheck, strCheck]
+  | string => simp [expStrRE, reCheck, strCheck]
+  | hexBinary =>
+    simp only [expStrRE, reCheck, strCheck, d1, d2, if_false, if_true, reHexBinary_eq]
+    by_cases hc : Spec.Xsd.hexBinaryLexOK (Spec.Xsd.normalize StrTy.hexBinary.dt s) = true <;> simp [hc]
+  | base64Binary =>
+    simp only [expStrRE, reCheck, strCheck, d3, d4, d5, if_false, if_true, reBase64_spec]
+    by_cases hc : Spec.Xsd.base64LexOK (Spec.Xsd.normalize StrTy.base64Binary.dt s) = true <;> simp [hc]
+
+theorem termEqualsStr_spec {T : StrTy} {f : StrFact} (hf : StrFactP T f) (v : Bytes) (t : TermArg) :
+    termEqualsStr f v t = some (decide (t = .literal (dtIRI T.dt) v)) := by
+  cases t with
+  | notLiteral => simp [termEqualsStr]
+  | literal dt lex =>
+    simp only [termEqualsStr, hf.same, hf.dt]
+    by_cases hd : dt = dtIRI T.dt
+    · subst hd
+      by_cases hl : lex = v <;> simp [hl]
+    · simp [hd]
+
+/-! ### decimal / double / float: the lexical check before strconv.ParseFloat -/
+
+structure FloatFactP (T : FloatTy) (f : FloatFact) : Prop where
+  collapse : f.collapse = true
+  parser : f.parser = .parseFloat
+  bits : f.bitSize = (if T = .float then 32 else 64)
+  re : f.lexRE = some (expFloatRE T)
+  objFmt : f.objFmt = (if T = .decimal then .formatFloat else .formatDouble)
+  objBits : f.objBits = f.bitSize
+  eqFmt : f.eqFmt = f.objFmt
+  eqBits : f.eqBits = f.bitSize
+  dt : f.datatype = dtIRI T.dt
+  same : f.eqDatatypeSame = true
+
+theorem floatFactOK_elim {T : FloatTy} {f : FloatFact} (h : floatFactOK T f = true) : FloatFactP T f := by
+  simp only [floatFactOK, Bool.and_eq_true, beq_iff_eq] at h
+  obtain ⟨⟨⟨⟨⟨⟨⟨⟨⟨h1, h2⟩, h3⟩, h4⟩, h5⟩, h6⟩, h7⟩, h8⟩, h9⟩, h10⟩ := h
+  exact ⟨h1, h2, h3, h4, h5, h6, h7, h8, h9, h10⟩
+
+/-- the lexical check of a float-family Map function = the spec's recogniser of that datatype -/
+theorem floatCheck_spec {T : FloatTy} {f : FloatFact} (hf : FloatFactP T f) (a : Bytes) :
+    reCheck f.lexRE a = if Spec.Xsd.lexOK T.dt a then .pass else .fail := by
+  obtain ⟨d1, d2, d3, d4, d5, d6⟩ := reSrc_distinct
+  rw [hf.re]
+  cases T with
+  | decimal => simp only [expFloatRE, reCheck, if_true, reDecimal_eq]; rfl
+  | double => simp only [expFloatRE, reCheck, d6, if_false, if_true, reDouble_eq]; rfl
+  | float => simp only [expFloatRE, reCheck, d6, if_false, if_true, reDouble_eq]; rfl
+
+theorem mapFloat_sound {T : FloatTy} {f : FloatFact} (hf : FloatFactP T f) {s : Bytes} {v : FVal}
+    (h : mapFloat f s = .ok v) : Spec.Xsd.accepts T.dt s = true := by
+  unfold mapFloat argOf at h
+  simp only [hf.collapse, if_true, collapse_spec, floatCheck_spec hf] at h
+  have hn : Spec.Xsd.normalize T.dt s = collapse s := by cases T <;> rfl
+  unfold Spec.Xsd.accepts
+  rw [hn]
+  by_cases hl : Spec.Xsd.lexOK T.dt (collapse s) = true
+  · exact hl
+  · simp [hl] at h
+
+/-- conversely the Map function fails only for a string outside the lexical space or for a range error -/
+theorem mapFloat_complete {T : FloatTy} {f : FloatFact} (hf : FloatFactP T f) {s : Bytes}
+    (h : Spec.Xsd.accepts T.dt s = true) :
+    mapFloat f s = parseFloat (collapse s) (if T = .float then 32 else 64) := by
+  have hn : Spec.Xsd.normalize T.dt s = collapse s := by cases T <;> rfl
+  unfold Spec.Xsd.accepts at h
+  rw [hn] at h
+  unfold mapFloat argOf
+  simp only [hf.collapse, if_true, collapse_spec, floatCheck_spec hf, h, hf.parser, hf.bits]
 
 end RdfModel.Proofs.C20
